@@ -97,18 +97,18 @@ def process(ck, designs, n_ext, ncycles):
       base = runs[0]
       for r in runs:
         if r[4]:
-          ck.violation('rerun-changes-state', {'flow': r[0]}, {'source': src, 'order': r[1], 'ff_order': r[2], 'inputs': cycles},
+          ck.violation('rerun-changes-state', {'flow': r[0]}, {'source': src, 'order': r[1], 'ff_order': r[2], 'inputs': cycles, 'signals': [s_.path for s_ in d.sigs]},
                        {'fails': r[4][:2], 'oracle': 're-running a comb block after evaluation must change no signal'})
         if r[3] != base[3]:
           k = next(i for i, (x, y) in enumerate(zip(r[3], base[3])) if x != y)
           ck.violation('schedules-differ', {'flows': [base[0], r[0]]},
-                       {'source': src, 'order_a': base[1], 'order_b': r[1], 'ff_a': base[2], 'ff_b': r[2], 'inputs': cycles},
+                       {'source': src, 'order_a': base[1], 'order_b': r[1], 'ff_a': base[2], 'ff_b': r[2], 'inputs': cycles, 'signals': [s_.path for s_ in d.sigs]},
                        {'cycle': k, 'a': base[3][k], 'b': r[3][k], 'signals': [s.path for s in d.sigs],
                         'oracle': 'two legal schedules of the same design must give identical values'})
         elif r[3] != [(a, b) for a, b in ref_trace] and r is base:
           k = next(i for i, (x, y) in enumerate(zip(r[3], ref_trace)) if tuple(x) != tuple(y))
           ck.violation('differs-from-dataflow-reference', {'flow': r[0]},
-                       {'source': src, 'order': r[1], 'ff_order': r[2], 'inputs': cycles},
+                       {'source': src, 'order': r[1], 'ff_order': r[2], 'inputs': cycles, 'signals': [s_.path for s_ in d.sigs]},
                        {'cycle': k, 'impl': r[3][k], 'ref': ref_trace[k], 'signals': [s.path for s in d.sigs],
                         'oracle': 'values must equal the dataflow equations evaluated independently (rtlgen.RefSim)'})
       continue
@@ -125,10 +125,10 @@ def process(ck, designs, n_ext, ncycles):
     got = rtlgen.parse_sim_reply(rep)
     if got != tr:
       if isinstance(got, tuple):
-        ck.disagreement('Model/Rtl≈simulation', {'source': src, 'flow': label, 'order': list(order), 'inputs': cycles}, rep, 'ran')
+        ck.disagreement('Model/Rtl≈simulation', {'source': src, 'flow': label, 'order': list(order), 'inputs': cycles, 'signals': [s_.path for s_ in d.sigs]}, rep, 'ran')
       else:
         k = next(i for i, (x, y) in enumerate(zip(got, tr)) if tuple(x) != tuple(y))
-        ck.disagreement('Model/Rtl≈simulation', {'source': src, 'flow': label, 'order': list(order), 'ff': list(fo), 'inputs': cycles},
+        ck.disagreement('Model/Rtl≈simulation', {'source': src, 'flow': label, 'order': list(order), 'ff': list(fo), 'inputs': cycles, 'signals': [s_.path for s_ in d.sigs]},
                         {'cycle': k, 'model': got[k]}, {'cycle': k, 'impl': tr[k], 'signals': [s.path for s in d.sigs]})
 
 def run(ck):
@@ -149,6 +149,5 @@ def run(ck):
     raise InfraError(f'too many generated designs rejected: {len(ck.rejected)}/{done}: {ck.rejected[0]}')
 
 def replay(ck, data):
-  print('replay: re-run the source in data["case"]["source"] with the listed orders; see detail')
-  print(data['case'].get('source', ''))
-  return 1
+  print(data.get('kind'), data.get('signature')); print(str(data.get('detail'))[:1500])
+  return rtlgen.replay_source(ck, data.get('case') or {})
